@@ -303,6 +303,52 @@
 
 #![cfg_attr(feature = "cargo-clippy", allow(clippy::inline_always))]
 
+// Verification hooks (see src/verif_hooks.rs). With the cfg off these macros
+// expand to nothing.
+#[cfg(multiqueue2_verif)]
+macro_rules! vpoint {
+    ($s:ident) => {
+        $crate::verif_hooks::point($crate::verif_hooks::site::$s)
+    };
+}
+#[cfg(not(multiqueue2_verif))]
+macro_rules! vpoint {
+    ($s:ident) => {};
+}
+#[cfg(multiqueue2_verif)]
+macro_rules! vnote_sent {
+    ($p:expr) => {
+        $crate::verif_hooks::note_sent($p)
+    };
+}
+#[cfg(not(multiqueue2_verif))]
+macro_rules! vnote_sent {
+    ($p:expr) => {};
+}
+#[cfg(multiqueue2_verif)]
+macro_rules! vnote_recv_attempt {
+    ($p:expr) => {
+        $crate::verif_hooks::note_recv_attempt($p)
+    };
+}
+#[cfg(not(multiqueue2_verif))]
+macro_rules! vnote_recv_attempt {
+    ($p:expr) => {};
+}
+#[cfg(multiqueue2_verif)]
+macro_rules! vnote_wait_pair {
+    ($s:expr, $t:expr) => {
+        $crate::verif_hooks::note_wait_pair($s, $t)
+    };
+}
+#[cfg(not(multiqueue2_verif))]
+macro_rules! vnote_wait_pair {
+    ($s:expr, $t:expr) => {};
+}
+
+#[cfg(multiqueue2_verif)]
+pub mod verif_hooks;
+
 mod alloc;
 mod atomicsignal;
 mod broadcast;
